@@ -126,6 +126,30 @@ def build_merge_late(recs, delim, probe=None):
     return conv
 
 
+def build_copies(recs, delim):
+    """Copies of a converter are converters: a deep copy and a pickle round trip of the converter holding all but the last
+    record each learn the last record afterwards (the deep copy by add_record, the pickled one by a merging add_prefix of a
+    synonym first); the original learns something else.  Returns (deep copy, [(other object, its model), ...])."""
+    import copy
+    import pickle
+
+    base = Converter([to_record(r) for r in recs[:-1]], delimiter=delim)
+    from ..impl import observe
+
+    observe(base, queries(delim, 2)[:40], PREFIX_QUERIES)     # whatever the object memoises is memoised before it is copied
+    deep = copy.deepcopy(base)
+    pick = pickle.loads(pickle.dumps(base))
+    last = recs[-1]
+    deep.add_record(to_record(last))
+    pick.add_record(Record(prefix=last.prefix, uri_prefix=last.uri_prefix, pattern=last.pattern))
+    for s_ in last.psyn:
+        pick.add_record(Record(prefix=s_, uri_prefix=last.uri_prefix), merge=True)
+    for s_ in last.usyn:
+        pick.add_record(Record(prefix=last.prefix, uri_prefix=s_), merge=True)
+    base.add_prefix("zz5", "zz5/", prefix_synonyms=["zz5s"])
+    return deep, [(pick, Model(recs, delim)), (base, Model(list(recs[:-1]) + [mrec("zz5", "zz5/", ["zz5s"])], delim))]
+
+
 EXOTIC_DELIMS = ["%3A", "%", "%%", "{}", "\\", " ", "é", "a", "#", "_", "="]   # characters that are special to formatting / escaping / the alphabet itself
 
 
@@ -270,7 +294,7 @@ def run_case(check_config, case, ctx=None):
     else:
         Q = queries(d, case.get("qlen", 3))
         _EXTRA["p"], _EXTRA["i"] = [], []
-    modes = [case["mode"]] if case.get("mode") else ["ctor", "merge-late", "chain-of-singletons", "sub-by-synonym", "shared-list"] + (["subclass-hook"] if case.get("hook") else [])
+    modes = [case["mode"]] if case.get("mode") else ["ctor", "merge-late", "chain-of-singletons", "sub-by-synonym", "shared-list", "copies"] + (["subclass-hook"] if case.get("hook") else [])
     for mode in modes:
         if mode == "merge-late" and not any(r.psyn or r.usyn for r in recs):
             continue
@@ -281,6 +305,8 @@ def run_case(check_config, case, ctx=None):
         where = f"records {recs_to_json(recs)} delimiter {d!r} mode {mode}"
         inputs = []
         if mode == "shared-list" and (d != ":" or case.get("qlen")):
+            continue
+        if mode == "copies" and (case.get("qlen") or len(recs) < 2):
             continue
         cur_model = model
         try:
@@ -297,6 +323,8 @@ def run_case(check_config, case, ctx=None):
 
                 conv = HookedConverter([to_record(r) for r in recs], delimiter=d)
                 cur_model = Model(recs, d, hook=ident_hook)
+            elif mode == "copies":
+                conv, inputs = build_copies(recs, d)
             elif mode == "merge-late":
                 conv = build_merge_late(recs, d)
             elif mode == "chain-of-singletons":
